@@ -109,6 +109,12 @@ fn automatic_shapes() -> Vec<Case> {
                         cases.push(Case { env, implied: false, tag: None, ty: Ty::Seq { set: false, root: vec![plain("x"), Comp { name: "inner".into(), tag: None, ty: inner, opt: Opt::Req }], marker: false, adds: vec![] } });
                         // tagged component after the extension marker
                         cases.push(Case { env, implied: false, tag: None, ty: Ty::Seq { set: false, root: vec![plain("x")], marker: true, adds: comps.iter().cloned().map(Add::Comp).collect() } });
+                        // tagged component inside a version group: it is a component of the type all the same (X.680 25.3 speaks of
+                        // the ComponentTypeLists, which the groups are part of)
+                        if !choice {
+                            cases.push(Case { env, implied: false, tag: None, ty: Ty::Seq { set: false, root: vec![plain("x")], marker: true, adds: vec![Add::Group(None, comps.clone())] } });
+                            cases.push(Case { env, implied: false, tag: None, ty: Ty::Seq { set: false, root: vec![plain("x"), plain("y")], marker: true, adds: vec![Add::Comp(plain("z")), Add::Group(Some(2), comps.clone())] } });
+                        }
                     }
                 }
             }
